@@ -157,13 +157,29 @@ def reconnect(chk: Check, repo: Repo) -> None:
     exc = ExcTable(repo)
     tl = repo.func(T, "_Tunnel._tunnel_lost")
     cfg = CFG(tl.node)
-    for auto, running, transport, channel in product((False, True), (False, True), (False, True), (False, True)):
-        def cm(c, env):
+    # the flag disconnect() raises before it first yields (a user disconnect is in progress), found by what the code does
+    dcf = repo.func(T, "_Tunnel.disconnect")
+    dcfg = CFG(dcf.node)
+    awaits_ = [n.id for n in dcfg.nodes if n.ast is not None and n.kind in ("stmt", "test", "with") and any(isinstance(x, ast.Await) for x in ast.walk(n.ast))]
+    flags = []
+    for n in dcfg.nodes:
+        if n.kind == "stmt" and isinstance(n.ast, ast.Assign) and len(n.ast.targets) == 1 and isinstance(n.ast.targets[0], ast.Attribute) and ast.unparse(n.ast.targets[0].value) == "self" and isinstance(n.ast.value, ast.Constant) and n.ast.value.value is True:
+            if awaits_ and all(dcfg.dominates(n.id, a) for a in awaits_):
+                flags.append(n.ast.targets[0].attr)
+    flag = flags[0] if len(flags) == 1 else None
+    chk.ob("user-disconnect-is-flagged-before-it-yields", dcf.site(), flag is not None, f"disconnect() sets {['self.' + f for f in flags]} = True before its first await" if flag else "disconnect() raises no flag before it awaits the DisconnectResponse: a server DisconnectRequest, heartbeat failure or failed send in that window calls _tunnel_lost(), which cannot tell that the user is disconnecting and starts a reconnect (a ConnectRequest is sent after the user disconnected)", key="disconnect-flag")
+    for disc, auto, task, transport, channel in product((False, True), (False, True), ("none", "running", "finished"), (False, True), (False, True)):
+        if disc and flag is None:
+            continue
+
+        def cm(c, env, task=task):
             n = call_name(c)
             if n == "asyncio.create_task":
                 return [Outcome(f"CREATE_TASK({ast.unparse(c.args[0])})", Obj("Task", "new"))]
             if n == "self._reconnect_task.add_done_callback":
                 return [Outcome(f"ON_DONE({ast.unparse(c.args[0])})", None)]
+            if n == "self._reconnect_task.done":
+                return [Outcome(None, task == "finished")]
             if n == "self._prepare_disconnect":
                 return [Outcome("PREPARE_DISCONNECT", None)]
             if n == "self.transport.send":
@@ -174,22 +190,34 @@ def reconnect(chk: Check, repo: Repo) -> None:
                 return [Outcome(None, Obj("x", n))]
             return None
         am = AbsMachine(cfg, exc, cm)
-        env = {"self.auto_reconnect": auto, "self._reconnect_task": Obj("Task", "old") if running else None, "self.transport.transport": Obj("Transport", "t") if transport else None, "self.communication_channel": 7 if channel else None}
+        old = Obj("Task", "old") if task != "none" else None
+        env = {"self.auto_reconnect": auto, "self._reconnect_task": old, "self.transport.transport": Obj("Transport", "t") if transport else None, "self.communication_channel": 7 if channel else None}
+        if flag is not None:
+            env[f"self.{flag}"] = disc
         paths = Explorer(cfg, repo, am.step).run(cfg.entry, [], env)
         got = {(tuple(p.env.get("trace", ())), repr(p.env.get("self._reconnect_task"))) for p in paths}
-        if auto:
-            if running:
-                want = {((), repr(Obj("Task", "old")))}
-            else:
+        if disc:
+            want = {((), repr(old))}  # the user is disconnecting: disconnect() tears down; nothing is started or sent here
+        elif auto:
+            if task == "running":
+                want = {((), repr(old))}
+            else:  # no task, or one that has finished but whose done-callback has not run yet
                 want = {(("CREATE_TASK(self._reconnect())", "ON_DONE(_reconnect_task_cleanup)"), repr(Obj("Task", "new")))}
         else:
             tr = ("PREPARE_DISCONNECT",) + ((("SEND_DISCONNECT_REQUEST",) if channel else ()) + ("TRANSPORT_STOP",) if transport else ())
-            want = {(tr, repr(Obj("Task", "old") if running else None))}
-        chk.ob("tunnel-lost-cell", tl.site(), got == want, f"auto_reconnect={auto} reconnect_running={running} transport={transport} channel={channel}: {sorted(map(str, got))}; reference {sorted(map(str, want))}", key=f"lost|{auto}|{running}|{transport}|{channel}" + ("" if got == want else f"|{sorted(map(str, got))}"))
-    # cleanup callback resets the slot
+            want = {(tr, repr(old))}
+        chk.ob("tunnel-lost-cell", tl.site(), got == want, f"user_disconnecting={disc} auto_reconnect={auto} reconnect_task={task} transport={transport} channel={channel}: {sorted(map(str, got))}; reference {sorted(map(str, want))}", key=f"lost|{disc}|{auto}|{task}|{transport}|{channel}" + ("" if got == want else f"|{sorted(map(str, got))}"))
+    # cleanup callback resets the slot — only if it still holds the task that finished (a newer task may be there)
     nested = repo.nested_functions(tl)
-    ok = len(nested) == 1 and any(isinstance(n, ast.Assign) and ast.unparse(n.targets[0]) == "self._reconnect_task" and ast.unparse(n.value) == "None" for n in walk_local(nested[0].node))
-    chk.ob("reconnect-slot-reset-on-done", tl.site(), ok, "the done-callback of the reconnect task resets the slot to None", key="reconnect-cleanup")
+    ok = False
+    if len(nested) == 1:
+        nf = nested[0]
+        tparam = nf.node.args.args[0].arg if nf.node.args.args else None
+        resets = [n for n in walk_local(nf.node) if isinstance(n, ast.Assign) and ast.unparse(n.targets[0]) == "self._reconnect_task" and ast.unparse(n.value) == "None"]
+        ncfg = CFG(nf.node)
+        nmf = ncfg.must_facts()
+        ok = len(resets) == 1 and tparam is not None and any(v and a in (f"self._reconnect_task is {tparam}", f"{tparam} is self._reconnect_task") for n in ncfg.nodes if n.ast is resets[0] for a, v in nmf[n.id])
+    chk.ob("reconnect-slot-reset-on-done", tl.site(), ok, "the done-callback of a reconnect task resets the slot to None only while the slot still holds that task (a finished task does not block the next reconnect, and its late callback does not drop a newer task)", key="reconnect-cleanup")
     ws = [w for w in attr_writes(repo, "_reconnect_task", include_mutators=False)]
     for w in ws:
         q = w.func.qualname
@@ -320,6 +348,8 @@ def task_slots(chk: Check, repo: Repo) -> None:
 
 
 def run(chk: Check, repo: Repo) -> None:
+    from .common_rules import dispatch_iterates_a_snapshot
+    dispatch_iterates_a_snapshot(chk, repo, repo.func("xknx.core.connection_manager", "ConnectionManager._connection_state_changed"), "_connection_state_changed_cbs", "the state-change callbacks", "snapshot|state-callbacks")
     manager(chk, repo)
     state_reports(chk, repo)
     reconnect(chk, repo)
